@@ -2,7 +2,7 @@ from .common import COMMON_ASSUME
 
 CFG = {
     "props_module": "RpmVerif.Props.C05",
-    "required_theorems": ["RpmVerif.C05.scriptlet_tags_standard", "RpmVerif.C05.scriptlet_tags_distinct", "RpmVerif.C05.file_digest_lengths_standard", "RpmVerif.C05.fileDigestNew_ok_iff", "RpmVerif.C05.old_sha224_length_witness", "RpmVerif.C05.parsed_entries_stored", "RpmVerif.C05.getter_value_is_stored", "RpmVerif.C05.getter_absent",
+    "required_theorems": ["RpmVerif.C05.index_tag_numbers_standard", "RpmVerif.C05.index_tag_numbers_distinct", "RpmVerif.C05.scriptlet_tags_standard", "RpmVerif.C05.scriptlet_tags_distinct", "RpmVerif.C05.file_digest_lengths_standard", "RpmVerif.C05.fileDigestNew_ok_iff", "RpmVerif.C05.old_sha224_length_witness", "RpmVerif.C05.parsed_entries_stored", "RpmVerif.C05.getter_value_is_stored", "RpmVerif.C05.getter_absent",
                           "RpmVerif.C05.getter_wrong_type", "RpmVerif.C05.filePaths_spec", "RpmVerif.C05.filePaths_bad_index",
                           "RpmVerif.C05.deps_zip", "RpmVerif.C05.getFilePaths_total",
                           "RpmVerif.C05.installed_size_spec", "RpmVerif.C05.installed_size_is_stored", "RpmVerif.C05.compression_names_ascii",
